@@ -119,10 +119,21 @@ if stalled:
 
 REPLAY_C13 = '''
 bad = []
+# let every thread that is not asleep in Condition.wait run on (the real background thread never stops by itself)
+for _ in range(400):
+    movers = [t for t in gate.runnable() if gate.position(t) not in ("cv-wait", "poll-blocked")]
+    if not movers: break
+    try:
+        gate.release(movers[0])
+    except Mismatch:
+        break
 left = gate.runnable()
-asleep = [t for t, n in conn._recv_event.waiters.items() if not n]
-if chan.inbox and asleep and not conn._recvlock.locked() and all(gate.position(t) == "cv-wait" for t in left):
-    bad.append("a reply is in the inbox, the receive lock is free and thread(s) %%r sleep in Condition.wait un-notified (lost wake-up)" %% asleep)
+asleep = [t for t, n in conn._recv_event.waiters.items() if not n and t < nwait]
+for t in asleep:
+    if results[t]._is_ready:
+        bad.append("thread %%d sleeps in Condition.wait un-notified although its reply has been processed (it can only wake by timeout)" %% t)
+    elif chan.inbox and not conn._recvlock.locked():
+        bad.append("a reply is in the inbox, the receive lock is free and thread %%d sleeps un-notified (lost wake-up)" %% t)
 bg._active = False
 done = gate.finish()
 for i, res in enumerate(results):
